@@ -1,4 +1,5 @@
 import JugModel.Lemmas.ExecOnce
+import JugModel.Lemmas.ExecRetry
 /-!
 # C02 - a task is executed at most once and never by two workers at the same time
 (all worker counts, all interleavings: workers are `Nat`-indexed, histories are arbitrary event lists)
@@ -88,6 +89,27 @@ theorem exactly_once_if_stored (P : Prog V) (fl : Worker → Flags) (s : Sys V) 
   have h1 := h3.stored_runs t hres
   have h2 := h3.once t
   omega
+
+/-- **at most once, in general**: along *any* history - failing tasks, stop requests, killed workers, lock clean-up, any number
+    of workers, any interleaving - a task function is started again only after an attempt was interrupted (the function raised,
+    or the worker running it was stopped or killed before the result was stored): `runs t ≤ 1 + interruptions of t` -/
+theorem at_most_once_general (P : Prog V) (fl : Worker → Flags) (res₀ : Task → Option V) (s : Sys V) (evs : List (Ev V))
+    (hr : Steps P fl (initSys res₀) evs s) (t : Task) :
+    s.runs t ≤ 1 + interruptions P fl (initSys res₀) evs t := by
+  have h := counted_steps P fl t evs (initSys res₀) s 0 (inv_init res₀) hr (Or.inl (by simp [initSys]))
+  rcases h with h | ⟨h, _⟩ <;> omega
+
+/-- in particular: no interruption of `t`, at most one start - whatever else fails, stops or dies in the history -/
+theorem at_most_once_uninterrupted (P : Prog V) (fl : Worker → Flags) (res₀ : Task → Option V) (s : Sys V) (evs : List (Ev V))
+    (hr : Steps P fl (initSys res₀) evs s) (t : Task) (h0 : interruptions P fl (initSys res₀) evs t = 0) : s.runs t ≤ 1 := by
+  have := at_most_once_general P fl res₀ s evs hr t
+  omega
+
+/-- the bound is tight: a failed attempt released without --keep-failed is followed by a second, successful one -/
+example : ∃ s, run (V := Nat) { n := 1, deps := fun _ => [], f := fun _ _ => 7 } (fun _ => ⟨true, false⟩) (initSys (fun _ => none))
+    [.lock 0 0 true, .canLoad 0 0 false, .begin_ 0 0, .endExc 0 0, .unlock 0 0,
+     .lock 1 0 true, .canLoad 1 0 false, .begin_ 1 0, .endOk 1 0 7, .dump 1 0 7, .unlock 1 0] = some s ∧ s.runs 0 = 2 :=
+  ⟨_, rfl, by decide⟩
 
 /-! non-vacuity: a two-worker history in which both workers go for the same task; the loser is told "locked" -/
 section Example
